@@ -257,8 +257,14 @@ def call_name(n):
 
 
 def is_macro(n, name):
-    n = strip_pre(n)
-    return isinstance(n, dict) and name in n.get("m", ())
+    while isinstance(n, dict):
+        if name in n.get("m", ()):
+            return True
+        if n.get("k") == "pre":
+            n = n.get("e")
+        else:
+            break
+    return False
 
 
 def macro_of(n):
@@ -356,7 +362,7 @@ def show(n, depth=0):
         return "..."
     k = n.get("k")
     d = depth + 1
-    if n.get("m") and k in ("int", "un", "cast", "bin", "char", "float"):
+    if n.get("m") and k in ("int", "un", "cast", "bin", "char", "float", "pre"):
         return n["m"][-1]
     if k == "pre":
         return show(n.get("e"), d)
